@@ -143,9 +143,14 @@ def check(case):
         return res
     if not faults:
         # fault-free: grammar + exact log (hooks not called for skipped elements nor in dry-run)
-        err = recognise(base_hooks)
+        err = recognise(base_hooks) if not prog.get("omit_hooks") else None
         if err:
             res.fail("C12.nesting", err)
+        if prog.get("omit_hooks"):
+            # the environment defines only some hook functions: those are called exactly as in a full environment
+            res.label("partial-environment")
+            if "before_tag" in prog["omit_hooks"] and "after_tag" not in prog["omit_hooks"]:
+                res.label("partial-environment:after_tag-without-before_tag")
         ref = base_ref
         run = run_program(copy.deepcopy(prog))
         runcheck.check_hooks(res, "C12", ref, run)
@@ -169,7 +174,7 @@ def check(case):
         if run.escaped is not None:
             res.fail("C12.escape", "exception escaped run(): %r" % (run.escaped,))
             return res
-        err = recognise(list(map(tuple, run.hooks)))
+        err = recognise(list(map(tuple, run.hooks))) if not prog.get("omit_hooks") else None
         if err:
             res.fail("C12.nesting", err)
         runcheck.check_hooks(res, "C12.skip", ref, run)
@@ -195,7 +200,7 @@ def check(case):
     if not run.failed:
         res.fail("C12.verdict", "a hook raised but the run reports success")
     # (c) nesting / pairing
-    err = recognise(list(map(tuple, run.hooks)))
+    err = recognise(list(map(tuple, run.hooks))) if not prog.get("omit_hooks") else None
     if err:
         res.fail("C12.nesting", err)
     runcheck.check_hooks(res, "C12", ref, run)
@@ -337,6 +342,10 @@ def program_for_hooks(draw):
         # environment functions decorated with behave.log_capture.capture (documented): a raising hook still
         # counts, whether or not a log record was captured
         prog["capture_hooks"] = draw(st.sampled_from(["plain", "error"]))
+    if draw(st.integers(0, 3)) == 0:
+        prog["omit_hooks"] = draw(st.lists(st.sampled_from(["before_tag", "before_tag", "after_tag", "before_step", "after_step",
+                                                             "before_rule", "after_rule", "before_feature", "after_feature",
+                                                             "after_scenario"]), min_size=1, max_size=4, unique=True))
     normalize(prog)
     return prog
 
@@ -388,7 +397,9 @@ def required_labels(tier):
                                     "before_tag", "after_tag"]] + ["faults:2", "stop", "AssertionError", "fault-free",
                                                                      "dry-run", "skip-in-hook:feature",
                                                                      "skip-in-hook:rule", "skip-in-hook:scenario",
-                                                                     "fault-in-@capture-decorated-hook", "exception-without-message", "raise-then-skip", "skip-via-mark_skipped"]
+                                                                     "fault-in-@capture-decorated-hook", "exception-without-message", "raise-then-skip", "skip-via-mark_skipped",
+                                                                     "partial-environment:after_tag-without-before_tag"]
 
 
 KNOWN_PREDICATES = {}
+RULE = RULE + " " + ('A quarter of the programs run with an environment that defines only some of the hook functions (e.g. after_tag without before_tag): the defined ones are called, and their faults counted, exactly as in a full environment.')
